@@ -36,6 +36,9 @@ func checkC20(r *Report, p *Program) {
 	// "… and does not take the process down": what a lookup/hook call may answer with nil is tested before use (shared with C13)
 	lookupResultsChecked(r, p, "R20.8")
 	optionalFieldsChecked(r, p, "R20.9", 10)
+	// a start that fails leaves no subscription behind: the factory's reference count table (shared with C18)
+	r18_2(r, p)
+	etagEnabledTable(r, p, "R20.11")
 	// the reconcilers' error checks mean what they say (a start that is skipped on success, or goes on after a failure)
 	errorChecksMeanWhatTheySay(r, p, "R20.10")
 }
